@@ -697,6 +697,11 @@ def check(program, rep):
     rep.guard("C19-R2", r2_root_source, program, rep)
     rep.guard("C19-R3", r3_fpga, program, folder, rep)
     rep.guard("C19-R4", r4_dimensions, program, rep)
+    # the slips that are visible wherever they occur (NAMELINK, FALSY, STALE,
+    # NOEFFECT, SLIPS - DESIGN.md 9.13-9.15), over the property's modules
+    from .. import namelink as _nl
+    rep.guard("C19-R5", _nl.rule, program, rep, "C19-R5",
+              ['rig.geometry'], floor=0)
     return finish(rep, program, EXPLANATION, NOT_DECIDED,
                   trusted=["the tile description at the top of rules/C19.py "
                            "(rows y=0..7 spanning x in [max(0,y-3), "
